@@ -174,7 +174,11 @@ func execute(t *testing.T, h Harness, k Knobs, prog, sched *simrt.Stream, keep i
 		}
 	case res.Aborted == "budget":
 		if !h.LivelockOK {
-			o.check, o.msg = "livelock", fmt.Sprintf("step budget of %d exhausted under the fair scheduler", *fSteps)
+			desc := ""
+			for _, l := range res.Leftover {
+				desc += fmt.Sprintf(" [task %d %s %s on %s]", l.ID, l.Name, l.State, l.On)
+			}
+			o.check, o.msg = "livelock", fmt.Sprintf("step budget of %d exhausted under the fair scheduler; tasks still there:%s", *fSteps, desc)
 		}
 	}
 	return o
